@@ -71,9 +71,10 @@ def pipeline(draw, prefix):
 def case(draw):
     lang = draw(st.sampled_from(["yaml", "yaml", "py"]))
     kind = draw(st.sampled_from(["valid-sigint", "valid-sigint", "valid-fail", "invalid"]))
-    pipes = [draw(pipeline("p0"))] if lang == "yaml" else [draw(pipeline(f"p{i}")) for i in range(draw(st.integers(1, 3)))]
+    pause = draw(st.sampled_from([None, None, 1, 3, 10])) if lang == "py" else None
+    pipes = [draw(pipeline("p0"))] if lang == "yaml" else [draw(pipeline(f"p{i}")) for i in range(draw(st.integers(1, 3 if pause is None else 7)))]
     c = {"lang": lang, "kind": kind, "pipes": pipes, "logging": lang == "yaml" and draw(st.booleans()), "extra": lang == "yaml" and draw(st.booleans()),
-         "beats": draw(st.sampled_from([2, 5])), "flow": draw(st.booleans()), "plugin_section": lang == "yaml" and draw(st.booleans()),
+         "beats": draw(st.sampled_from([2, 5])), "flow": draw(st.booleans()), "pause_ms": pause, "plugin_section": lang == "yaml" and draw(st.booleans()),
          "cli": draw(st.sampled_from([[], [], ["--log-level", "DEBUG"], ["--log-level", "warning"], ["--log-journal"]]))}
     services = [e for p in pipes for e in p if e["cls"] in SERVICES]
     if kind == "valid-fail":
@@ -92,6 +93,8 @@ def case(draw):
         c["many"] = draw(st.sampled_from([300, 2000, 6000]))  # a configuration module that builds very many pipelines
     if lang == "py" and draw(st.booleans()):
         c["switchinterval"] = draw(st.sampled_from([1e-4, 1e-5]))
+    if (lang == "py" or c["logging"]) and not c.get("many") and draw(st.integers(0, 2)) == 0:
+        c["slow_log"] = draw(st.sampled_from([0.001, 0.005, 0.02]))  # a slow log sink on the runtime's own loggers
     return c
 
 
@@ -120,9 +123,13 @@ def yaml_text(c, logfile):
     if inv != "missing-pipeline":
         sections.append(["pipeline", {"l": nodes, "flow": False}])
     if (c["logging"] or inv == "missing-pipeline") and inv != "logging-invalid":
-        sections.append(["logging", {"m": [["version", {"s": 1}],
-                                            ["handlers", {"m": [["file", {"m": [["class", {"s": "logging.FileHandler"}], ["filename", {"s": logfile}]], "flow": False}]], "flow": False}],
-                                            ["root", {"m": [["level", {"s": "INFO"}], ["handlers", {"l": [{"s": "file"}], "flow": True}]], "flow": False}]], "flow": False}])
+        handlers = [["file", {"m": [["class", {"s": "logging.FileHandler"}], ["filename", {"s": logfile}]], "flow": False}]]
+        extra_loggers = []
+        if c.get("slow_log"):
+            handlers.append(["slow", {"m": [["()", {"s": f"{MOD}.SlowHandler"}], ["delay", {"s": c["slow_log"]}]], "flow": False}])
+            extra_loggers = [["loggers", {"m": [["cobald.runtime", {"m": [["level", {"s": "DEBUG"}], ["handlers", {"l": [{"s": "slow"}], "flow": True}]], "flow": False}]], "flow": False}]]
+        sections.append(["logging", {"m": [["version", {"s": 1}], ["handlers", {"m": handlers, "flow": False}]] + extra_loggers +
+                                           [["root", {"m": [["level", {"s": "INFO"}], ["handlers", {"l": [{"s": "file"}], "flow": True}]], "flow": False}]], "flow": False}])
     if c["extra"]:
         sections.append(["__config_test", {"m": [["a", {"s": 1}]], "flow": True}])
     if inv == "unknown-section":
@@ -147,6 +154,9 @@ def py_text(c):
     if c.get("switchinterval"):
         # schedule perturbation from inside the (Python) configuration: frequent thread switches while objects are built
         lines.insert(0, f"import sys; sys.setswitchinterval({c['switchinterval']!r})")
+    if c.get("slow_log"):
+        lines += ["import logging as _logging", f"_slow = SlowHandler({c['slow_log']!r})", "_logging.getLogger('cobald.runtime').addHandler(_slow)",
+                  "_logging.getLogger('cobald.runtime').setLevel(_logging.DEBUG)"]
     if c.get("invalid") == "py-raises":
         lines.append("raise RuntimeError('configuration module fails on purpose')")
     for i, pipe in enumerate(c["pipes"]):
@@ -155,6 +165,10 @@ def py_text(c):
             args = ", ".join(f"{k}={v!r}" for k, v in e["kw"].items())
             parts.append(f"{e['cls']}({args})" if j == len(pipe) - 1 else f"{e['cls']}.s({args})")
         lines.append(f"pipeline_{i} = " + " >> ".join(parts))
+        if c.get("pause_ms"):
+            # the configuration takes its time between two pipelines (e.g. it queries a remote site): service definitions
+            # interleave with the polling cycles of the running runtime
+            lines.append(f"__import__('time').sleep({c['pause_ms'] / 1000!r})")
     if c.get("many"):
         lines += ["many = []", f"for i in range({c['many']}):", "    many.append(FxSvcQuiet.s(name='q%d' % i) >> FxPool(name='qp%d' % i, quiet=True))"]
     if c.get("invalid") == "py-syntax":
